@@ -38,7 +38,7 @@ func runC11(c *Ctx) {
 	c.L.Floor("C11.sorted-unique", 4)
 	c.L.Floor("C11.clone-fresh", 2)
 	c.L.Floor("C11.ring.reset-complete", 3)
-	c.L.Floor("C11.ring.cursor", 4)
+	c.L.Floor("C11.ring.cursor", 2)
 	c.L.Floor("C11.range-stop", 4)
 	c.L.Floor("C11.ring.order", 2)
 
@@ -329,6 +329,10 @@ func runC11(c *Ctx) {
 				}
 				switch core.FieldName(a) {
 				case "cur":
+					if f.Name() == "Push" {
+						// decided for every state by C11.ring.push (E1)
+						return
+					}
 					good, why := false, "unrecognised cursor update"
 					if k, isK := core.ConstInt(x.Val); isK && k == 0 {
 						good, why = true, "reset to 0"
@@ -462,27 +466,8 @@ func runC11(c *Ctx) {
 			c.check(descendingOver(f, first) && descendingOver(f, second), "C11.ring.order", f, "each half visited in descending index order", nil, "index loops from len-1 down to 0")
 		}
 	}
-	if sc := c.P.Func("container", "RingBuffer.splitCur"); sc != nil {
-		// full: (buf[cur:], buf[:cur]); not full: (buf[:cur], nil)
-		for _, ret := range core.Returns(sc) {
-			a, b := ret.Results[0], ret.Results[1]
-			if core.IsNilConst(a) && core.IsNilConst(b) {
-				continue
-			}
-			sa, okA := a.(*ssa.Slice)
-			if !okA {
-				c.undecided("C11.ring.order", sc, "splitCur result", ret, "unrecognised")
-				continue
-			}
-			if core.IsNilConst(b) {
-				c.check(sa.Low == nil && sa.High != nil && guardedByField(ret, "full", false), "C11.ring.order", sc, "not full: (buf[:cur], nil)", ret, "elements 0..cur-1 in push order")
-			} else {
-				sb, okB := b.(*ssa.Slice)
-				c.check(okB && sa.Low != nil && sa.High == nil && sb.Low == nil && sb.High != nil && sa.Low == sb.High && guardedByField(ret, "full", true),
-					"C11.ring.order", sc, "full: (buf[cur:], buf[:cur])", ret, "the oldest element is at cur")
-			}
-		}
-	}
+	// the halves themselves: C11.ring.split (E1, c11ring.go)
+	c11RingSemantic(c)
 }
 
 // guardedNonNil: the instruction runs only where recv != nil.
